@@ -4,7 +4,7 @@ From Coq Require Import String List NArith ZArith Bool.
 From J5V.lib Require Import Outcome Json JsonPrint Base64 Civil.
 From J5V.model Require Import CodecTypes CodecEnc CodecEncSpec.
 From J5V.gen Require ReadmeGen EncSwitchGen.
-From J5V.proofs Require Import CodecEncProofs CodecEncLex CodecEncEmbed CodecEncPresence CodecEncSpecDet.
+From J5V.proofs Require Import CodecEncProofs CodecEncLex CodecEncEmbed CodecEncPresence CodecEncSpecDet CodecEncInner.
 Import ListNotations.
 Local Open Scope N_scope.
 
@@ -204,6 +204,17 @@ Theorem C08_any_type_value : forall f env pb v j, wire_value f env (FAny pb) v j
                (forall s, pb = false -> msg_get 3 m = Some (VBytes s) -> strict_parse s = Some jv).
 Proof. exact spec_any_framing. Qed.
 Print Assumptions C08_any_type_value.
+(* the premise inner_ok of C08_encode_is_print / C01 is an instance of the theorem: when the inner
+   encoding of an Any payload is the encoder itself on the payload message of a registered type
+   (resolver and proto.Unmarshal abstract), nested to any depth, its outputs are compact JSON *)
+Theorem C08_inner_encoding_is_compact : forall fmt_float reg unmarshal,
+  float_text_ok fmt_float ->
+  (forall tn e root, reg tn = Some (e, root) -> oneofs_flat e) ->
+  (forall tn pb e root m, reg tn = Some (e, root) -> unmarshal tn pb = Some m -> raw_root_gen e compact_json root m) ->
+  forall n, inner_ok (inner_n fmt_float reg unmarshal n).
+Proof. exact inner_n_ok. Qed.
+Print Assumptions C08_inner_encoding_is_compact.
+
 (* The specification leaves no freedom inside the documented domain: for a value whose scalars are
    all in-domain and whose Any values store JSON text, at most one tree satisfies the wire format —
    so "the encoder's output satisfies wire_format" pins the output completely. *)
